@@ -78,7 +78,8 @@ def decOp (j : Json) : R Op := do
         group := if opts.contains "group" then jstrD j "group" "" else "",
         as := if opts.contains "as" then as else [],
         export_ := if opts.contains "export" then jboolD j "export" false else false,
-        cb := jboolD j "cb" false, info := jboolD j "info" false })
+        cb := jboolD j "cb" false, info := jboolD j "info" false,
+        loc := if opts.contains "loc" then (match jnat j "loc" with | .ok g => some g | .error _ => none) else none })
   else if op == "decorate" then
     pure (.decorate (← jnat j "scope") (← jnat j "fn") (jboolD j "cb" false) (jboolD j "info" false))
   else if op == "invoke" then
@@ -147,11 +148,18 @@ def encVerdict : Verdict → Json
   | .panicDig => Json.mkObj [("panic", Json.str "dig")]
   | .fuel => Json.str "fuel"
 
-def encEvent (same : Bool) : Event → Json
+/-- `CallbackInfo.Name` names the constructor's *location*: the provided function, unless the Provide that registered
+    the callback (operation `op`) carried `LocationForPC` -/
+def cbName (ops : List Op) (op fn : Nat) : Nat :=
+  match ops[op]? with
+  | some (.provide _ _ o) => o.loc.getD fn
+  | _ => fn
+
+def encEvent (same : Bool) (ops : List Op) : Event → Json
   | .enter _ f x args => Json.mkObj [("e", "enter"), ("fn", jn f), ("x", jn x), ("args", Json.arr (args.map encVal).toArray)]
   | .exit _ f x r => Json.mkObj [("e", "exit"), ("fn", jn f), ("x", jn x),
       ("r", Json.str (match r with | .ok => "ok" | .err => "err" | .panic => "panic"))]
-  | .cb op _ fn err rt => Json.mkObj [("e", "cb"), ("op", jn op), ("name", if same then Json.str "" else Json.str s!"F{fn}"),
+  | .cb op _ fn err rt => Json.mkObj [("e", "cb"), ("op", jn op), ("name", if same then Json.str "" else Json.str s!"F{cbName ops op fn}"),
       ("err", match err with | none => Json.str "nil" | some e => encErr e), ("rt", jn rt)]
 
 def encInfo (same : Bool) (i : InfoOut) : Json :=
@@ -181,16 +189,16 @@ def encDot (g : DGraph) : Json :=
     ("transitive", Json.arr (g.transitive.map encDRes).toArray),
     ("root", Json.arr (g.rootCauses.map encDRes).toArray)]
 
-def encOpRes (same : Bool) (rd : OpRes × Option DGraph) : Json :=
+def encOpRes (same : Bool) (ops : List Op) (rd : OpRes × Option DGraph) : Json :=
   let r := rd.1
-  Json.mkObj [("v", encVerdict r.v), ("ev", Json.arr (r.ev.map (encEvent same)).toArray),
+  Json.mkObj [("v", encVerdict r.v), ("ev", Json.arr (r.ev.map (encEvent same ops)).toArray),
     ("info", match r.info with | some i => encInfo same i | none => Json.null),
     ("dot", match rd.2 with | some g => encDot g | none => Json.null)]
 
 def isFuel : Verdict → Bool | .fuel => true | _ => false
 
-def encTrace (same : Bool) (rs : List (OpRes × Option DGraph)) : Json :=
-  Json.mkObj [("ops", Json.arr (rs.map (encOpRes same)).toArray),
+def encTrace (same : Bool) (ops : List Op) (rs : List (OpRes × Option DGraph)) : Json :=
+  Json.mkObj [("ops", Json.arr (rs.map (encOpRes same ops)).toArray),
     ("fatal", if rs.any (fun r => isFuel r.1.v) then Json.str "fuel" else Json.null)]
 
 /-- K-graph request -/
@@ -212,6 +220,6 @@ def handleLine (line : String) : String :=
     | _ =>
       match decProgram j with
       | .error e => (Json.mkObj [("error", Json.str e)]).compress
-      | .ok p => (encTrace p.sameIds (runProgramV p).2).compress
+      | .ok p => (encTrace p.sameIds p.ops (runProgramV p).2).compress
 
 end Dig
